@@ -60,16 +60,21 @@ class ItemList(ItemContainerBase):
         """
         self._check_class(value, allow_none=True)
         self._allocate(index - 1)
-        self.__list.insert(index, value)
+        # Actual position the value is going to take, following the list
+        # insertion rules for negative and out-of-range indices
+        length = len(self.__list)
+        if index < 0:
+            position = max(length + index, 0)
+        else:
+            position = min(index, length)
+        self.__list.insert(position, value)
         if value is None:
             self._cleanup()
         else:
             try:
                 self._handle_item_addition(value, self)
             except ItemAlreadyAssignedError as e:
-                # Passed index may be negative or out of range, and thus cannot
-                # be used to find what we have just inserted
-                self.__list.remove(value)
+                del self.__list[position]
                 self._cleanup()
                 raise ValueError(*e.args) from e
 
